@@ -37,7 +37,7 @@ def run(ctx):
     per = 3 if q else 20
     for fam, (par, vals) in DETECT.items():
         batch = P.families()[fam]["kind"] == "batch"
-        for i in range(per + (3 if vals is None else 0)):
+        for i in range(per + (7 if vals is None else 0)):
             p = base_params(fam, rng)
             if vals is None:      # HDDDM / CDBD: t-test significance (smaller = stricter) or number of deviations (larger = stricter)
                 if i % 2 == 0:
@@ -50,8 +50,8 @@ def run(ctx):
                 vs = vals
             i1, i2 = sorted(rng.sample(range(len(vs)), 2))
             if vals is None and p["statistic"] == "tstat" and i % 2 == 0:
-                i1 = rng.choice([0, 1])              # the looser run uses a level above one half
-                i2 = rng.choice(range(i1 + 1, len(vs)))
+                i1 = 0                               # the looser run uses a level well above one half, the stricter one a level around it or below
+                i2 = rng.choice([1, 2, 3])
             loose, strict = dict(p), dict(p)
             loose[par], strict[par] = vs[i1], vs[i2]
             n = rng.randint(8, 12) if batch else (rng.randint(150, 300) if fam not in ("KdqTreeStreaming", "LinearFourRates") else 100)
